@@ -1747,6 +1747,31 @@ def _probe_fn(x, body, inplace=False):
     return x
 
 
+@navis.utils.map_neuronlist(desc='c03 probe (parallel)', allow_parallel=True)
+def _probe_fn_par(x, body, inplace=False):
+    """Probe function for the map_neuronlist wrapper with parallel processing allowed.
+
+    Parameters
+    ----------
+    x :         TreeNeuron | NeuronList
+                Neuron(s).
+    body :      list
+                Primitive statements.
+    inplace :   bool
+                In place?
+
+    Returns
+    -------
+    TreeNeuron
+
+    """
+    if not inplace:
+        x = x.copy()
+    for t in body:
+        do_stmt(x, t)
+    return x
+
+
 def maplist_case(ctx, case):
     k, ip, body = case['k'], case['ip'], case['body']
     dup = bool(case.get('dup')) and k > 0
@@ -1775,6 +1800,193 @@ def maplist_case(ctx, case):
     else:
         ctx.oracle(r is not nl and [probe_abs(n) for n in members] == a0 and all(mem(n) == 'f' for n in r.neurons),
                    f'map_neuronlist inplace=False: input list / neurons modified or result shares neuron objects', case)
+
+
+# =================================================================================================
+# stream D: map_neuronlist(..., parallel=True)
+# =================================================================================================
+class PicklingPool:
+    """In-process stand-in for pathos' ProcessingPool that keeps the ONE guarantee of a process pool the decorator relies on:
+    every job (function, arguments) reaches the worker as a pickled copy and its result comes back pickled (dill, as pathos)."""
+    jobs = 0
+
+    def __init__(self, n=None):
+        self.n = n
+
+    def __enter__(self):
+        return self
+
+    def __exit__(self, *a):
+        return False
+
+    def imap(self, fn, it, chunksize=1):
+        import dill
+        out = []
+        for job in list(it):
+            PicklingPool.jobs += 1
+            out.append(dill.loads(dill.dumps(fn(dill.loads(dill.dumps(job))))))
+        return iter(out)
+
+    def map(self, fn, it, chunksize=1):
+        return list(self.imap(fn, it, chunksize))
+
+    imap_unordered = imap
+    uimap = imap
+
+
+class _pool:
+    """context manager: 'pickle' swaps in the PicklingPool, 'real' leaves pathos' pool (2 worker processes) in place"""
+    def __init__(self, kind):
+        self.kind = kind
+
+    def __enter__(self):
+        import navis.core.core_utils as CU
+        self.CU, self.saved = CU, CU.ProcessingPool
+        if self.kind == 'pickle':
+            PicklingPool.jobs = 0
+            CU.ProcessingPool = PicklingPool
+        return self
+
+    def __exit__(self, *a):
+        self.CU.ProcessingPool = self.saved
+        return False
+
+
+# representative map_neuronlist-decorated functions: with an `inplace` parameter (the decorator forces inplace=True on the jobs
+# of a parallel call) and without (annotation / query / conversion)
+PAR_FUNCS = ['prune_by_strahler', 'prune_twigs', 'downsample_neuron', 'heal_skeleton', 'strahler_index', 'make_dotprops']
+PAR_FUNCS_THOROUGH = ['smooth_skeleton', 'longest_neurite', 'resample_skeleton', 'despike_skeleton', 'guess_radius', 'prune_at_depth', 'cell_body_fiber', 'subset_neuron',
+                      'drop_fluff', 'classify_nodes', 'flow_centrality', 'betweeness_centrality',
+                      'sholl_analysis', 'mesh', 'voxelize', 'persistence_points', 'split_axon_dendrite']
+
+
+def par_case(ctx, case):
+    """a decorated function called with parallel=True (n_cores=2) on a NeuronList of length k"""
+    name, k, seed, pool, explicit = case['name'], case['k'], case['seed'], case['pool'], case.get('explicit_false', False)
+    f = catalogue().get(name)
+    spec = SPEC.get(name)
+    if f is None or spec is None:
+        ctx.count('par_missing', name)
+        return
+    ip = has_inplace(f)
+    tag = f"{name}[parallel=True,len={k},pool={pool}{',inplace=False' if explicit else ''}]"
+    single_kind = 'tree' if name not in ('heal_skeleton', 'drop_fluff') else 'forest'
+
+    def prep():
+        return navis.NeuronList([build(single_kind, seed + i, case.get('warm', False)) for i in range(k)])
+
+    def make_args(x):
+        r = _random.Random(f'c03-par-{name}-{seed}')
+        a, kw = spec['args'](x[0], _random.Random(r.random()))
+        if name == 'subset_neuron':
+            a, kw = (lambda n: _ids(n)[: max(2, len(_ids(n)) // 2)],), dict(kw)       # a callable: evaluated per member
+        if name == 'reroot_skeleton':
+            a = ([_leaf(n) for n in x],) if k > 1 else (_leaf(x[0]),)
+        if name == 'in_volume':
+            a = (_volume(x),)
+        return a, dict(kw)
+
+    x = prep()
+    s0 = snap(prep())
+    ids0 = [id(n) for n in x.neurons]
+    try:
+        args, kwargs = make_args(x)
+    except Exception as e:
+        ctx.count('arg_builder_error', f'{name}: {short(e)}')
+        return
+    annot, returns_input = annot_for(name, kwargs)
+    kw = dict(kwargs, parallel=True, n_cores=2)
+    if explicit and ip:
+        kw['inplace'] = False
+    elif spec.get('inplace_default_true'):
+        kw['inplace'] = False
+    try:
+        with _pool(pool):
+            res = f(x, *args, **kw)
+    except Exception as e:
+        ctx.count('par_errors', f'{tag}: {short(e)}'[:170])
+        d = snap_diff(s0, snap(x), annot)
+        ctx.oracle(not d, f'{tag}: input modified although the parallel call raised (differs in {d[:6]})', case)
+        return
+    ctx.count('par_called', f"{'inplace-capable' if ip else 'no-inplace-parameter'}/len={k}/pool={pool}")
+    if pool == 'pickle':
+        ctx.count('par_jobs_through_pool', 'all' if PicklingPool.jobs == k else f'{PicklingPool.jobs} of {k}')
+    d = snap_diff(s0, snap(x), annot)
+    ctx.oracle(not d, f'{tag}: input modified by a parallel call without inplace=True (differs in {d[:6]})', case)
+    ctx.oracle(ids0 == [id(n) for n in x.neurons], f'{tag}: the input NeuronList holds different neuron objects after the call', case)
+    if d:
+        return
+    ins = set(ids0)
+    same = [1 for r in neurons_of(res) if id(r) in ins]
+    ctx.oracle(not same, f'{tag}: the parallel call without inplace handed back {len(same)} of the input neuron object(s) themselves', case)
+    if isinstance(res, navis.NeuronList):
+        ctx.oracle(res is not x, f'{tag}: the parallel call without inplace returned the input list itself', case)
+    sh = shared_containers(x, res)
+    ctx.oracle(not sh, f'{tag}: result of the parallel call shares containers with the input ({sh[:4]})', case)
+    s_res = snap(res, light=True) if isinstance(res, (navis.NeuronList, navis.BaseNeuron)) else None
+    st = {}
+    mutate_result(res, st, tags=True)
+    d2 = snap_diff(s0, snap(x), annot)
+    ctx.oracle(not d2, f'{tag}: editing the result of the parallel call changed the input ({d2[:6]})', case)
+    # parallel == serial: the non-inplace result of the parallel call is the non-inplace result of the serial call
+    if s_res is not None and not spec.get('nondet'):
+        y = prep()
+        a2, k2 = make_args(y)
+        k2 = dict(k2, **({'inplace': False} if (ip and (explicit or spec.get('inplace_default_true'))) else {}))
+        try:
+            ser = f(y, *a2, **k2)
+            ds = snap_diff(snap(ser, light=True), s_res) if isinstance(ser, (navis.NeuronList, navis.BaseNeuron)) else []
+            ds = [q for q in ds if not any(q.endswith('.' + c) or q.endswith('nodes.' + c) for c in annot.get('nodes', ()))]
+            ctx.oracle(not ds, f'{tag}: result of the parallel call differs from the result of the serial call (in {ds[:6]})', case)
+        except Exception as e:
+            ctx.count('par_errors', f'{tag} serial reference: {short(e)}'[:170])
+    # inplace=True + parallel=True: same list object, ending in the state of the non-inplace result (the member objects are
+    # replaced by what the workers send back — documented in the decorator — so member identity is only counted)
+    if ip and s_res is not None:
+        z = prep()
+        idz = [id(n) for n in z.neurons]
+        a3, k3 = make_args(z)
+        try:
+            with _pool(pool):
+                r3 = f(z, *a3, **dict(k3, parallel=True, n_cores=2, inplace=True))
+        except Exception as e:
+            ctx.oracle(False, f'{tag}: works without inplace but raises with inplace=True: {short(e)}', case)
+            return
+        ctx.oracle(r3 is z or r3 is None, f'{tag}: inplace=True (parallel) returned a different object instead of the input list', case)
+        ctx.count('par_inplace_members', 'same objects' if idz == [id(n) for n in z.neurons] else 'replaced by the workers\' copies')
+        dz = snap_diff(s_res, snap(z, light=True))
+        ctx.oracle(not dz, f'{tag}: state after inplace=True (parallel) differs from the result of the non-inplace call (in {dz[:6]})', case)
+
+
+def parprobe_case(ctx, case):
+    """the real map_neuronlist wrapper with parallel=True around a probe body vs the heap model `mapListPar` under the
+    (forced, pooled) facts the translator extracted"""
+    k, ip, body, pool = case['k'], case['ip'], case['body'], case['pool']
+    members = [probe_tree(i, False, False) for i in range(k)]
+    nl = navis.NeuronList(members)
+    a0 = [probe_abs(n) for n in members]
+    init = abs_str(a0[0]) if members else '10,20,-,-,7'
+    with _pool(pool):
+        r = _probe_fn_par(nl, body, inplace=ip, parallel=True, n_cores=2)
+
+    def mem(n):
+        for i, mbr in enumerate(members):
+            if n is mbr:
+                return f's{i}'
+        return 'f'
+    impl = (f"samelist={1 if r is nl else 0} recv={'.'.join(mem(n) for n in nl.neurons)} res={'.'.join(mem(n) for n in r.neurons)} "
+            f"in={'|'.join(abs_str(probe_abs(n)) for n in members)} out={'|'.join(abs_str(probe_abs(n)) for n in r.neurons)}")
+    m = ctx.ask(f"c03.parmap ip={1 if ip else 0} k={k} forced=gen pooled=gen init={init} body={';'.join(body) if body else '-'}")
+    kv = dict(w.split('=', 1) for w in m.split())
+    ctx.count('parprobe', f"ip={int(ip)} k={k} pool={pool} forced={kv.get('forced')} pooled={kv.get('pooled')} ext={kv.get('ext')}")
+    mod = ' '.join(w for w in m.split() if not w.startswith(('ext=', 'forced=', 'pooled=')))
+    ctx.corr(impl, mod, f'map_neuronlist(parallel=True, inplace={ip}) on {k} neurons, body {body}, {pool} pool: list identity / members / '
+                        f'contents vs heap model mapListPar', case)
+    if not ip:
+        ctx.oracle(r is not nl and [probe_abs(n) for n in members] == a0 and all(mem(n) == 'f' for n in r.neurons),
+                   f'map_neuronlist(parallel=True) without inplace on {k} neuron(s): input neurons modified or handed back '
+                   f'(in {[abs_str(a) for a in a0]} -> {[abs_str(probe_abs(n)) for n in members]}, result members '
+                   f'{[mem(n) for n in r.neurons]})', case)
 
 
 def deep_case(ctx, case):
@@ -2016,13 +2228,25 @@ def gen_prim_cases(ctx):
                          (f'a:{ctx.rng.randint(50, 99)}' if t == 'a' else f'd:{ctx.rng.randint(0, 3)}'))
         yield 'deep', dict(attr=attr, kids=[ctx.rng.randint(1, 40) for _ in range(nk)], edits=edits,
                            via=ctx.rng.choice(['copy', 'copy', 'nl.copy', 'copy.copy']))
+    # ---- parallel=True: lists of length 1, 2, 3; in-process pickling pool everywhere, the real 2-worker pool for a few
+    full = (not ctx.quick()) or ctx.search_mode
+    for n in PAR_FUNCS + (PAR_FUNCS_THOROUGH if full else []):
+        for k in ((1, 2, 3) if (full or n in ('prune_by_strahler', 'strahler_index')) else (1, 2)):
+            yield 'par', dict(name=n, k=k, seed=ctx.rng.randrange(10 ** 6), pool='pickle', explicit_false=(k != 2), warm=(k == 3))
+            if full or (n in ('prune_by_strahler', 'strahler_index') and k <= 2):
+                yield 'par', dict(name=n, k=k, seed=ctx.rng.randrange(10 ** 6), pool='real', explicit_false=(k == 2), warm=False)
+    for k in (1, 2, 3):
+        for ipv in (False, True):
+            for pool in (('pickle', 'real') if (full or k == 1) else ('pickle',)):
+                for _ in range(ctx.budget(1, 4)):
+                    yield 'parprobe', dict(k=k, ip=ipv, pool=pool, body=[t for t in gen_body(ctx.rng, False, False, tree=False, maxlen=3)] or ['wr:n:1'])
     for i in range(ctx.budget(20, 120)):
         yield 'maplist', dict(k=ctx.rng.randint(0, 4), ip=ctx.rng.random() < 0.5, dup=ctx.rng.random() < 0.2,
                               body=[t for t in gen_body(ctx.rng, False, False, tree=False, maxlen=4)])
 
 
 RUNNERS = {'sweep': sweep_case, 'arith': arith_case, 'listop': listop_case, 'prim': prim_case, 'copy': copy_case,
-           'maplist': maplist_case, 'nlmethod': nlmethod_case, 'deep': deep_case}
+           'maplist': maplist_case, 'nlmethod': nlmethod_case, 'deep': deep_case, 'par': par_case, 'parprobe': parprobe_case}
 
 
 def run(ctx):
